@@ -39,6 +39,15 @@ def gen_sel(rng, ids, depth=2):
     return ("not", gen_sel(rng, ids, depth - 1))
 
 
+def elem_type(ax, t):
+    """type of one element of a vmapped argument"""
+    if ax is None or t in (None, "?"):
+        return t
+    if ax == 1:
+        return ("A", t[1], t[2][2])       # a column of a rows x columns matrix
+    return t[2]
+
+
 def lens_of(core, argt, args):
     """lengths of vmap/scan nodes in pre-order; they are static in the generated programs,
     so they are recomputed by a symbolic walk over types"""
@@ -58,9 +67,9 @@ def lens_of(core, argt, args):
             n = None
             for ax, t in zip(p[1], at):
                 if ax is not None and t is not None and t != "?" and t[0] == "A":
-                    n = t[1]; break
+                    n = t[2][1] if ax == 1 else t[1]; break
             out.append(n)
-            go(p[2], [(t[2] if (ax is not None and t not in (None, "?")) else t) for ax, t in zip(p[1], at)])
+            go(p[2], [elem_type(ax, t) for ax, t in zip(p[1], at)])
             return
         if k == "scan":
             n = p[1]
@@ -110,8 +119,8 @@ def lens_of(core, argt, args):
             n = None
             for ax, t in zip(p[1], at):
                 if ax is not None and t[0] == "A":
-                    n = t[1]; break
-            return ("A", n, rtype(p[2], [(t[2] if ax is not None else t) for ax, t in zip(p[1], at)]))
+                    n = t[2][1] if ax == 1 else t[1]; break
+            return ("A", n, rtype(p[2], [elem_type(ax, t) for ax, t in zip(p[1], at)]))
         if k == "scan":
             n = p[1] if p[1] is not None else at[1][1]
             kt = rtype(p[2], [at[0], (at[1][2] if at[1] != "N" else "N")])
@@ -215,7 +224,7 @@ def realise_req(q):
     import jax.numpy as jnp
     from genjax import Update, Regenerate, EmptyRequest, StaticRequest, IndexRequest
     k = q[0]
-    if k == "update": return Update(gfi.build_chm(q[1], q[2]))
+    if k == "update": return Update(gfi.build_chm(q[1], q[2]))       # style 2 uses gfi.set_style_n set by run_case
     if k == "regen": return Regenerate(gfi.realise_sel(q[1]))
     if k == "empty": return EmptyRequest()
     if k == "static": return StaticRequest({gfi.addr_name(a): realise_req(r) for a, r in q[1]})
@@ -337,7 +346,10 @@ def gen_request(rng, case, present, kind):
                     ents.append((p, ("M", rng.random() < 0.5, nv, "ar")))
                 else:
                     ents.append((p, nv))
-        return ("update", ents, rng.choice([0, 0, 1]))
+        st_ = rng.choice([0, 0, 1])
+        if core[0] in ("vmap", "scan") and case.get("lens") and case["lens"][0] > 0 and rng.random() < 0.4:
+            st_ = 2
+        return ("update", ents, st_)
     if kind == "regen":
         return ("regen", rng.choice(case["sels"]) if rng.random() < 0.6 else gen_sel(rng, case["ids"]))
     if kind == "empty":
@@ -373,6 +385,10 @@ def edit_kinds(case):
         out += ["static"]
     if core[0] == "vmap" and case["lens"] and case["lens"][0] > 0 and kinds_of(core[2]) <= set(EDIT_OK_UPDATE):
         out += ["index", "index"]
+    if core[0] == "scan" and case["lens"] and case["lens"][0] > 0 and kinds_of(core[2]) <= set(EDIT_OK_REGEN):
+        out += ["scan_index", "scan_index"]        # Scan.edit_index: not modelled, judged by the direct oracles only
+    if core[0] == "switch" and ks <= set(EDIT_OK_UPDATE):
+        out += ["switch_index"]                    # an update that changes the index: oracle-only (K19 covers its weight)
     return out
 
 # ---------------------------------------------------------------------------
@@ -396,6 +412,7 @@ def run_case(case):
     import warnings
     warnings.filterwarnings("ignore")
     rng = random.Random(case["rngseed"])
+    gfi.set_style_n(case["lens"][0] if case.get("lens") else None)
     try:
         g = gfi.realise(case["prog"])
         jargs = tuple(gfi.to_jax(v, t, st) for v, t, st in zip(case["args"], case["argt"], case["stages"]))
@@ -470,6 +487,9 @@ def run_case(case):
             ents.append((case["junk"][0], 1))
         kseed = case["keyseed"] + 17 * (gi + 1)
         style = rng.choice([0, 0, 1])
+        if core[0] in ("vmap", "scan") and case["lens"] and case["lens"][0] > 0 and rng.random() < 0.4:
+            style = 2
+            gfi.set_style_n(case["lens"][0])
 
         def do_gen():
             chm = gfi.build_chm(ents, style)
@@ -588,8 +608,20 @@ def run_case(case):
         for ei in range(2):
             kind = rng.choice(kinds)
             present = [(p, v) for (p, v) in cur_obs["look"] if v is not None and p in case["univ"]]
-            q = gen_request(rng, case, present, kind)
-            if kind in ("index",):
+            noship = kind in ("scan_index", "switch_index")
+            if kind == "scan_index":
+                kind = "index"
+            if kind == "switch_index":
+                q = ("update", [], 0)
+                nb_ = len(core[1])
+                nargs = list(cur_args)
+                nargs[0] = rng.choice([i_ for i_ in range(-1, nb_ + 1) if i_ != cur_args[0]])
+                changed = [True] + [False] * (len(cur_args) - 1)
+            else:
+                q = gen_request(rng, case, present, kind)
+            if kind == "switch_index":
+                pass
+            elif kind in ("index",):
                 nargs, changed = list(cur_args), [False] * len(cur_args)
             else:
                 nargs, changed = new_args(rng, case, G, cur_args)
@@ -610,7 +642,7 @@ def run_case(case):
                 return ntr, bwd, (observe(ntr, case), gfi.from_jax(w, "S"), observe_bwd(bwd, case), retdiff_check(rd, cur.get_retval()))
             r = guarded(do_edit)
             step = {"kind": "edit", "ti": cur_ti, "seed": eseed, "req": q, "args": nargs, "changed": changed,
-                    "old_args": cur_args, "old_obs": cur_obs}
+                    "old_args": cur_args, "old_obs": cur_obs, "noship": noship}
             if r[0] == "err" and has(core, ("switch",)) and "Custom node type mismatch" in r[2]:
                 r = ("known", "switch-edit-retdiff", r[2])
             if r[0] == "err" and r[2].startswith("AssertionError") and nested_mask(core):
@@ -625,8 +657,8 @@ def run_case(case):
             # C08: the same edit under the other honest tagging of the unchanged arguments gives the same result
             alt = [(c_ if a0 != a1 else (not c_)) for c_, a0, a1 in zip(changed, cur_args, nargs)]
             if has(core, ("switch",)):
-                alt = [(False if t_ in ("I", "B") else c_) for c_, t_ in zip(alt, case["argt"])]
-            if kind == "index":
+                alt = [(False if (t_ in ("I", "B") and a0 == a1) else c_) for c_, t_, a0, a1 in zip(alt, case["argt"], cur_args, nargs)]
+            if kind == "index" or noship:
                 alt = list(changed)
             if alt != changed:
                 def do_alt():
@@ -663,7 +695,7 @@ def run_case(case):
             if rb[0] == "err" and rb[1] == "ENotSupported" and not ob[2]["flat"]:
                 rb = ("known", "scan-regen-bwd", rb[2])      # Scan.edit_regenerate returns a VectorRequest no edit accepts (K24)
             steps.append({"kind": "bwd", "ei": edit_index, "seed": bseed, "res": rb, "fwd_weight": ob[1], "orig_obs": cur_obs,
-                          "req_kind": q[0]})
+                          "req_kind": q[0], "noship": noship})
             cur, cur_obs, cur_args, cur_jargs, cur_ti = ntr, ob[0], nargs, njargs, new_ti
     # 6. C23: the same calls inside jax.jit, and jax.vmap over keys (a subset of the cases: compilation is slow)
     if case["seed"] % case.get("jit_every", 5) == 0 and not case["zero_len"]:
@@ -808,7 +840,7 @@ def shipped_steps(out):
     mt = me = 0          # model counters
     for i, s in enumerate(out["steps"]):
         k, tag = s["kind"], s["res"][0]
-        ship = tag in ("ok", "err") and k not in ("wrappers", "sim_again", "echo", "jit", "vmapkeys", "tagging")
+        ship = tag in ("ok", "err") and k not in ("wrappers", "sim_again", "echo", "jit", "vmapkeys", "tagging") and not s.get("noship")
         if k in ("assess_own", "project", "edit", "subtrace") and s["ti"] not in tmap:
             ship = False
         if k == "bwd" and s["ei"] not in emap:
